@@ -4,7 +4,10 @@ package main
 import (
 	"encoding/json"
 	"fmt"
+	"io"
 	"os"
+	"os/exec"
+	"strings"
 
 	"verif/harness"
 	"verif/seq"
@@ -25,9 +28,9 @@ func main() {
 			// the code under test crashed inside the check: replaying is running that check again
 			var d struct{ Check, Tier string }
 			_ = json.Unmarshal(r.Data, &d)
-			if fn, ok := seq.Checks[d.Check]; ok {
+			if _, ok := seq.Checks[d.Check]; ok {
 				os.Setenv("VERIF_OUT", os.TempDir())
-				fn(harness.New(d.Check, d.Tier, "seq"))
+				supervise(d.Check, d.Tier)
 				return
 			}
 		}
@@ -53,5 +56,74 @@ func main() {
 		fmt.Fprintln(os.Stderr, "HARNESS-ERROR: unknown check", os.Args[1])
 		os.Exit(2)
 	}
+	if os.Getenv("VERIF_CHILD") == "" && os.Getenv("VERIF_NOSUPERVISE") == "" {
+		supervise(os.Args[1], tier)
+		return
+	}
 	fn(harness.New(os.Args[1], tier, "seq"))
 }
+
+// supervise runs the check in a child process. A panic the check can recover is a finding already
+// (harness.Guard); one it cannot - in a goroutine the code under test started itself, or a fatal
+// runtime error such as concurrent map writes - kills the child. That death is then reported as
+// a violation (the code under test crashed on the inputs of the check) instead of leaving a
+// broken check behind. Explicit HARNESS-ERROR exits stay what they are.
+func supervise(id, tier string) {
+	cmd := exec.Command(os.Args[0], id, tier)
+	cmd.Env = append(os.Environ(), "VERIF_CHILD=1")
+	cmd.Stdout = os.Stdout
+	var tail tailBuffer
+	cmd.Stderr = io.MultiWriter(os.Stderr, &tail)
+	err := cmd.Run()
+	if err == nil {
+		return
+	}
+	code := 2
+	if ee, ok := err.(*exec.ExitError); ok {
+		code = ee.ExitCode()
+	}
+	text := tail.String()
+	crashed := strings.Contains(text, "\npanic: ") || strings.HasPrefix(text, "panic: ") || strings.Contains(text, "fatal error: ") || strings.Contains(text, "[signal SIG")
+	if code == 1 || strings.Contains(text, "HARNESS-ERROR") || !crashed || !strings.Contains(text, "github.com/herohde/morlock/") {
+		os.Exit(code)
+	}
+	c := harness.New(id, tier, "seq")
+	c.Exhaustive = false
+	first := text
+	if i := strings.Index(text, "panic: "); i >= 0 {
+		first = text[i:]
+	} else if i := strings.Index(text, "fatal error: "); i >= 0 {
+		first = text[i:]
+	}
+	line := first
+	if i := strings.Index(line, "\n"); i >= 0 {
+		line = line[:i]
+	}
+	where := "?"
+	for _, l := range strings.Split(first, "\n") {
+		if strings.HasPrefix(l, "github.com/herohde/morlock/") {
+			where = strings.TrimPrefix(l, "github.com/herohde/morlock/")
+			if i := strings.LastIndex(where, "("); i > 0 {
+				where = where[:i]
+			}
+			break
+		}
+	}
+	if len(first) > 3000 {
+		first = first[:3000]
+	}
+	c.Note("the check process died; what it had covered up to then is not recorded")
+	c.Violation(fmt.Sprintf("%s/crash in %s: %s", id, where, line), "the code under test crashed the checking process (a panic in a goroutine it started itself, or a fatal runtime error):\n"+first, "panic", map[string]string{"check": id, "tier": tier})
+	c.Finish()
+}
+
+type tailBuffer struct{ b []byte }
+
+func (t *tailBuffer) Write(p []byte) (int, error) {
+	t.b = append(t.b, p...)
+	if len(t.b) > 1<<16 {
+		t.b = t.b[len(t.b)-1<<15:]
+	}
+	return len(p), nil
+}
+func (t *tailBuffer) String() string { return string(t.b) }
